@@ -756,6 +756,40 @@ def run_reserve(pair, rng, variant, opts):
                 if u not in black and rng.chance(2, 3):
                     tr.call(u, "confirm", [1], **su.pay(su.price))
             tr.dump()
+    if rng.chance(2, 3):
+        # run the launch to the end: whatever the allocation / blacklist / un-blacklist history did to the reserve,
+        # the final number of winners must be min(configured, confirmed) and every guarantee must be honoured
+        if not deposited:
+            g = deposit_probe()
+            amt = int(g["per"]) * (int(g["nrw"]) + int(g.get("tg", "0")))
+            deposited = tr.call(OWNER, "deposit", esdts=[(LP_TOK, 0, amt)])["st"] == "ok"
+        if tr.round < su.conf:
+            tr.round = su.conf
+        d = tr.dump()
+        if d.startswith("D "):
+            _, addrs = canon.parse_D(d)
+            for u in allocated:
+                a = addrs.get(u, {})
+                rg = a.get("range", "none")
+                if u in black or a.get("bl") == "1" or "-" not in rg:
+                    continue
+                f_, l_ = [int(x) for x in rg.split("-")]
+                left = (l_ - f_ + 1) - int(a.get("conf", "0"))
+                want = left if rng.chance(3, 4) else rng.range(0, max(left, 0))
+                if want > 0:
+                    tr.call(u, "confirm", [want], **su.pay(su.price * want))
+        tr.dump()
+        tr.round = su.sel
+        tr.call(STRANGER, "filter", seeds=[rng.seed32()])
+        tr.call(OWNER, "select", seeds=[rng.seed32()])
+        tr.dump()
+        xe = su.extra_ep()
+        if xe:
+            for _ in range(3):
+                res = tr.call(OWNER, xe, seeds=[rng.seed32(), rng.seed32()])
+                if res["st"] != "ok" or res.get("ret") == "[0]":
+                    break
+        tr.dump()
     return tr
 
 
